@@ -70,18 +70,18 @@ func (p *flowProto) dataSetBytes(r *rand.Rand, t tpl, n int) ([]byte, string) {
 	return cat(be16(t.id), be16(4+len(body)), body), strings.Join(recs, "")
 }
 
-// a template whose records are longer than 4 octets and fully known
+// a template whose records have a positive length and are fully known
 func (p *flowProto) histTpl(r *rand.Rand, id int) tpl {
 	for {
 		t := p.genTpl(r, id, r.Intn(4) == 0, true)
-		if n := minRecLen(p, t); n > 4 && allKnown(p, t) {
+		if n := minRecLen(p, t); n > 0 && allKnown(p, t) {
 			return t
 		}
 	}
 }
 
 // relength: the same elements in the same order, with at least one field length changed
-// (reduced-size / over-long encodings; records stay longer than 4 octets)
+// (reduced-size / over-long encodings; records keep a positive length)
 func (p *flowProto) relength(r *rand.Rand, t tpl) tpl {
 	for tries := 0; tries < 50; tries++ {
 		n := tpl{id: t.id, opts: t.opts}
@@ -104,7 +104,7 @@ func (p *flowProto) relength(r *rand.Rand, t tpl) tpl {
 		for _, s := range t.fields {
 			n.fields = append(n.fields, ch(s))
 		}
-		if changed && minRecLen(p, n) > 4 && allKnown(p, n) {
+		if changed && minRecLen(p, n) > 0 && allKnown(p, n) {
 			return n
 		}
 	}
